@@ -152,4 +152,35 @@ CLAIMED.update({
     },
 })
 
+CLAIMED.update({
+    'C11': {
+        'text': 'Translation validation between siblings for all class-count vectors (symbolic): the placement table (which of treatment / '
+                'control / neither each eligibility class may occupy) is computed from the generators by Boolean abstraction; the loop nest of '
+                'count_max_designs is normalised (index ranges, exact binomials, linear size forms, membership guards) and compared with the '
+                'normal form generated from that table; the size sets come from the same two size functions, which respect ranges and ratio.',
+        'design_ref': 'DESIGN.md section 4, C11',
+        'note': 'Not decided: the arithmetic identity for concrete vectors (no enumeration is run); a restructured count (other loop shape) is UNDECIDED.' + TB,
+        'technique': 'translation validation: extracted normal form vs. normal form generated from a derived placement table (sympy)',
+    },
+    'C12': {
+        'text': 'Structural necessary conditions of presentation invariance: IDs canonicalised to str before any set/index is built; raw frame '
+                'read only through a label-based pivot; no unordered iteration flows into the geo order; no date arithmetic; and scale '
+                'equivariance by a dimension (unit) analysis over the call graph of both searches — every addition/comparison relates equal '
+                'powers of the response unit and no absolute tolerance is applied to a response-scaled quantity.',
+        'design_ref': 'DESIGN.md section 4, C12',
+        'note': 'Not decided: the metamorphic relations themselves (two runs), tie-breaking among exactly equal means/scores; comparisons whose '
+                'operand units cannot be inferred are counted in the evidence, not judged.' + TB,
+        'technique': 'dominance + order-taint rules + dimension (unit) analysis on the call graph',
+    },
+    'C15': {
+        'text': 'Argument/provenance table of the ingestion pipeline (str IDs, zero-filled geo x date pivot, descending means, shares = means / '
+                'sum), Boolean evaluation of the "cannot be excluded" set against the class algebra with the ValueError rejection dominating the '
+                'narrowing, assignable = all - x_fixed, single-source index setter and aggregates, and a set-kind inference showing no Python set '
+                'is used as a pandas row selector.',
+        'design_ref': 'DESIGN.md section 4, C15',
+        'note': 'Not decided: pandas numeric results; duplicate (geo, date) cells (pivot mean).' + TB,
+        'technique': 'argument-table / provenance rules + Boolean abstraction + abstract kinds (set -> indexer)',
+    },
+})
+
 NOT_APPLICABLE = {}
